@@ -266,8 +266,10 @@ def r19_3(ctx: Ctx) -> None:
             mapping = {f"{feature}.start": "f_s", f"{feature}.end": "f_e", "region.end": "r_e", "region.start": "r_s",
                        f"{feature}.location.start": "f_s", f"{feature}.location.end": "f_e"}
             try:
-                # region spans the origin: r_e < r_s; a non-spanning feature inside it lies either in [r_s, L) or in [0, r_e]
-                pre = parse("f_s < f_e and r_e < r_s and (f_e <= r_e or f_s >= r_s)")
+                # region spans the origin: r_e <= r_s (equal when areas overlapping across the origin abut on the other
+                # side and the region covers the whole circle as join{[s:L), [0:s)}); a non-spanning feature inside it
+                # lies either in [r_s, L) or in [0, r_e]
+                pre = parse("f_s < f_e and r_e <= r_s and (f_e <= r_e or f_s >= r_s)")
                 ok, cex, n = decide(rename(expr, mapping), parse("f_e <= r_e"), pre=pre)
                 form += f"  ({'equivalent to containment in the post-origin part' if ok else f'differs from containment, e.g. {cex}'})"
             except OutsideFragment as err:
